@@ -61,9 +61,9 @@ func elAnchors(c *core.Ctx) *elAnch {
 		f := &fn{P: c.P, Obj: obj, Decl: d, Info: pk.TypesInfo, Pkg: pk, Name: core.FuncName(obj)}
 		if rv := f.recvVar(); rv != nil {
 			if isNamedPtr(rv.Type(), "Buffer") {
-				a.funcs[obj.Name()] = f
+				a.funcs[nameOf(obj)] = f
 			} else if isNamedPtr(rv.Type(), "RingBuffer") {
-				a.rfuncs[obj.Name()] = f
+				a.rfuncs[nameOf(obj)] = f
 			}
 		}
 	}
